@@ -1,7 +1,8 @@
 (* C08 theorems: statements are the *_stmt definitions of ProofsProps.v (bundled per group of operations); T is any type,
    D any record of operations satisfying the field laws FieldOK (Spec.v). *)
 From Coq Require Import List.
-From C08 Require Import Model Spec ProofsBasic ProofsProps.
+From Coq Require Import ZArith Znumtheory.
+From C08 Require Import Model Spec Fp ProofsBasic ProofsProps ProofsFp ProofsFp2.
 Theorem C08_spec_ring_laws : forall T (D : Dom T), FieldOK D -> SpecRing_stmt D.
 Proof. exact (@SpecRing_ok). Qed.
 Print Assumptions C08_spec_ring_laws.
@@ -50,6 +51,14 @@ Print Assumptions C08_normal_form_zero_and_decisions.
 Theorem C08_pseudo_division : forall T (D : Dom T), FieldOK D -> Pdivmod_stmt D.
 Proof. exact (@Pdivmod_ok). Qed.
 Print Assumptions C08_pseudo_division.
+(* the coefficient domain the extracted model RUNS on (canonical residues modulo a prime, a subset type) satisfies the field laws,
+   so every theorem above applies to the functions of the correspondence run; end-to-end corollaries about the printed lists *)
+Theorem C08_executable_instance_is_a_field : forall q, prime (Zpos q) -> FieldOK (FpDom q).
+Proof. exact FpDom_ok. Qed.
+Print Assumptions C08_executable_instance_is_a_field.
+Theorem C08_end_to_end_extracted_mul_divmod_gcdext : EndToEnd_stmt.
+Proof. exact EndToEnd_ok. Qed.
+Print Assumptions C08_end_to_end_extracted_mul_divmod_gcdext.
 Theorem C08_hypotheses_satisfiable : FieldOK GF2Dom.
 Proof. exact GF2_ok. Qed.
 Print Assumptions C08_hypotheses_satisfiable.
